@@ -767,3 +767,74 @@ func ruleReaderAcceptsDataEOF(c *chk.Ctx) {
 		return
 	}
 }
+
+// ruleRecordFilledByFullRead: in the length-prefixed receiver, every return of
+// a non-nil record is dominated by the err == nil edge of a full-read
+// primitive (io.ReadFull / io.ReadAtLeast / io.CopyN) whose size is the
+// parsed length.
+func ruleRecordFilledByFullRead(c *chk.Ctx) {
+	for _, f := range chanMethods(c, "Recv") {
+		var parse *ssa.Call
+		ir.Instrs(f, func(ins ssa.Instruction) {
+			if call, ok := ins.(*ssa.Call); ok && ir.IsCallTo(&call.Call, "strconv.Atoi", "strconv.ParseInt", "strconv.ParseUint") {
+				parse = call
+			}
+		})
+		if parse == nil {
+			continue
+		}
+		var fulls []*ssa.Call
+		ir.Instrs(f, func(ins ssa.Instruction) {
+			if call, ok := ins.(*ssa.Call); ok && ir.IsCallTo(&call.Call, "io.ReadFull", "io.ReadAtLeast", "io.CopyN") {
+				fulls = append(fulls, call)
+			}
+		})
+		n := 0
+		for _, r := range ir.Returns(f) {
+			if ir.IsNilConst(ir.ReturnResult(r, 0)) {
+				continue
+			}
+			n++
+			ok := false
+			for _, fr := range fulls {
+				sameErr := func(v ssa.Value) bool { return ir.IsExtractOf(v, fr, 1) }
+				if ir.InstrDominates(fr, r) && ir.ProvesNil(ir.CondsAt(r.Block()), sameErr) {
+					ok = true
+				}
+			}
+			c.Check(ok, "PAIR.fullread", f, "record returned only after a complete read", r.Pos(), "the record is returned only on the err == nil edge of io.ReadFull/io.CopyN for the declared length", "a record is returned without the success of a full-read primitive for the declared length (e.g. a limited ReadFrom, which swallows EOF): a body cut off by end of stream would be delivered shortened, with no error")
+		}
+		if n == 0 {
+			c.Undecided("PAIR.fullread", f, "record returns", f.Pos(), "no record-returning path found")
+		}
+		return
+	}
+}
+
+// ruleDataWithReaderError: a delimiter receiver that hands back data together
+// with an error hands back the read primitive's own error (the server accepts
+// data only with io.EOF).
+func ruleDataWithReaderError(c *chk.Ctx) {
+	for _, f := range chanMethods(c, "Recv") {
+		var rs *ssa.Call
+		ir.Instrs(f, func(ins ssa.Instruction) {
+			if call, ok := ins.(*ssa.Call); ok && ir.IsCallTo(&call.Call, "(*bufio.Reader).ReadSlice") {
+				rs = call
+			}
+		})
+		if rs == nil {
+			continue
+		}
+		for _, r := range ir.Returns(f) {
+			d, e := ir.ReturnResult(r, 0), ir.ReturnResult(r, 1)
+			if ir.IsNilConst(e) {
+				continue
+			}
+			if ir.IsNilConst(d) {
+				continue
+			}
+			c.Check(ir.IsExtractOf(e, rs, 1), "PAIR.dataerr", f, "data is returned with the reader's own error", r.Pos(), "an unterminated final record is returned with ReadSlice's own error (io.EOF at end of stream), which is the case the server's reader accepts", "data is returned together with an error that is not the read primitive's own: the server accepts data-with-error only for io.EOF, so a final unterminated record would be dropped")
+		}
+		return
+	}
+}
